@@ -567,6 +567,9 @@ func topForalls(s string) []qform {
 			return
 		}
 		v := rest[:sp]
+		if strings.HasPrefix(v, "o!") || strings.HasPrefix(v, "s!") || strings.HasPrefix(v, "slot!") {
+			return // quantifiers over objects / map slots (frames, keep facts) are not index quantifiers
+		}
 		body := strings.TrimSpace(rest[sp+len(" Int)) ") : len(rest)-1])
 		if strings.HasPrefix(body, "(! ") {
 			parts := splitSexprs(body[3 : len(body)-1])
